@@ -253,8 +253,15 @@ def build(topo: Topo, P: dict, order: Optional[list] = None, rename=None, via_pa
     return Built(net, nodes, links, origins, dests)
 
 
+# keywords a caller may pass along with the model parameters (the upstream tests pass their whole parameter dictionary):
+# they name link/origin constructor parameters, carry deliberately absurd values and must simply be ignored by a step
+UNRELATED_KEYWORDS = {"rho_max": 7.0, "rho_crit": 3.0, "lanes": 9, "L": 77.0, "C": 1.0, "v_free": 5.0, "a": 9.0, "turnrate": 0.125,
+                      "alpha": 3.0, "capacity": 2.0, "maximum_density": 1.0}
+
+
 def model_kwargs(topo: Topo, P: dict):
-    kw = {k: P[k] for k in MODEL_PARAMS}
+    kw = dict(UNRELATED_KEYWORDS)
+    kw.update({k: P[k] for k in MODEL_PARAMS})
     if topo.delta:
         kw["delta"] = P["delta"]
     if topo.phi:
